@@ -73,6 +73,15 @@ def templates():
         T.append(P + [fin(("tuple", [m("mi", lit(1)), m("ms", ("s", "a")), m("mb", blit(True))]))])
         k[0] = 0
         T.append(P + [fin(("struct", [("b", m("mi", lit(1))), ("a", m("mi", lit(2))), ("c", m("mi", lit(3)))]))])
+        # the condition of an `if` used as a value is evaluated exactly once - also when both branches are the same constant,
+        # written as bare expressions or as blocks
+        for br in ((lit(7), lit(7)), (("s", "ab"), ("bin", "add", ("s", "a"), ("s", "b"))), (lit(1), lit(2))):
+            k[0] = 0
+            T.append(P + [fin(("ifx", m("mb", blit(True)), br[0], br[1]))])
+            k[0] = 0
+            T.append(P + [("set", "x", ("ifx", ("bin", "gt", m("mi", lit(3)), lit(1)), br[0], br[1])), fin(V("x"))])
+            k[0] = 0
+            T.append(P + [fin(("if", m("mb", blit(False)), ("block", [br[0]]), ("block", [br[1]])))])
         # a struct literal that repeats a field name: every field expression is still evaluated, in order, once
         k[0] = 0
         T.append(P + [fin(("struct", [("a", m("mi", lit(1))), ("a", m("mi", lit(2)))]))])
